@@ -245,11 +245,32 @@ class RawGen:
                     k = self.r.choice([2, 2, 3])
                     opts["group"], opts["name"] = None, self.r.choice([1, 2, 0])
                     opts["as"] = [{"k": "iface", "ty": iface(i)} for i in self.r.sample(range(4), k)]
+                if self.ch(0.04):
+                    # the identical result-object type at two result positions (its single keys collide;
+                    # an object holding only group fields is fine)
+                    import copy as _copy
+                    o1 = self.out_struct(1)
+                    outs = [o1, _copy.deepcopy(o1)]
+                    opts["group"], opts["name"], opts["as"] = None, 0, []
+                if self.ch(0.05):
+                    # the result is itself an interface and dig.As lists that interface among others
+                    # (dig skips the own type and keeps the rest)
+                    i = self.r.randrange(4)
+                    outs = [iface(i)]
+                    others = self.r.sample([j for j in range(4) if j != i], self.r.choice([1, 2]))
+                    lst = [i] + others
+                    self.r.shuffle(lst)
+                    opts["group"], opts["name"] = None, self.r.choice([0, 0, 1])
+                    opts["as"] = [{"k": "iface", "ty": iface(j)} for j in lst]
                 raw = self.value_kind(self.func(self.r.choice([0, 0, 1, 1, 2]), self.with_error(outs)))
                 self.note_outputs(outs)
                 ops.append({"op": "rawprovide", "scope": s, "fn": fn, "raw": raw, "opts": opts})
             elif r < 0.8:
                 outs = [self.result_type() for _ in range(self.r.choice([1, 1, 2]))]
+                if self.ch(0.05):
+                    import copy as _copy
+                    o1 = self.out_struct(1)
+                    outs = [o1, _copy.deepcopy(o1)]
                 raw = self.value_kind(self.func(self.r.choice([0, 1, 1, 2]), self.with_error(outs)))
                 ops.append({"op": "rawdecorate", "scope": s, "fn": fn, "raw": raw, "opts": None})
             else:
